@@ -7,9 +7,11 @@
    seal_ word and the slots of Cache/CacheDefs.v.  The fitness value of a
    slot is copied OUT word by word (one step per word, the length re-read at
    every step, as a copy loop does), so a copy that is not protected can be
-   torn or cut short.  The assignment `table_[i] = s` is one step that touches
-   the whole slot: its intermediate states are invisible to every thread that
-   holds a lock, and tearing is already exhibited by the word-wise reader.
+   torn or cut short.  The assignment `table_[i] = s` is a SEQUENCE of steps in
+   member order (hash, then fitness, then seal), each on its own location, so
+   in the middle of an insert / load the slot holds the new key with the old
+   value; the fitness vector is written in one step (the word-level layout of
+   small_vector and its allocator are outside the model).
 
    The action sequence of each cache:: method is [compile], a skeleton whose
    lock / unlock actions and the place of the value copy (before or after the
@@ -28,9 +30,14 @@ Inductive action :=
 | ARdSeal                     (* local seal := seal_ *)
 | ARdSlot (i : N) (k : key)   (* const slot &s(table_[i]); ret := seal == s.seal && k == s.hash *)
 | ACopy                       (* one more word of s.fitness into the result, while ret *)
-| AWrSlot (i : N) (k : key) (v : list word)   (* table_[i] = slot{k, v, local seal} *)
+| ARdFields (i : N)           (* save: s.seal, s.hash, s.fitness of slot i *)
+| AWrKey (i : N) (k : key)    (* table_[i].hash = k       (first member of table_[i] = s) *)
+| AWrFit (i : N) (v : list word)   (* table_[i].fitness = v    (second member) *)
+| AWrSlotSeal (i : N)         (* table_[i].seal = local seal   (third member, insert) *)
+| AWrSlotSealV (i : N) (n : N)     (* table_[i].seal = t_seal  (third member, load) *)
 | AWrHash (i : N)             (* table_[i].hash = hash_t() *)
 | AWrSeal                     (* ++seal_ (and the reset of the slot seals when it wraps) *)
+| AWrSealV (n : N)            (* seal_ = t_seal  (load) *)
 | ARet.                       (* find returns: (key, copied value) is recorded *)
 
 Record thread := mkth {
@@ -103,8 +110,25 @@ Definition exec (s : state) (t : tid) (th : thread) : option state :=
                               (acc th) (results th))
                end
           else keep (mkth r (holds th) (lseal th) (curi th) (curk th) (matched th) (whole th) (acc th) (results th))
-      | AWrSlot i k v =>
-          put (readers s) (writer s) (gseal s) (upd (mem s) i (mkslot k v (lseal th)))
+      | ARdFields i => keep (mkth r (holds th) (lseal th) (curi th) (curk th) (matched th) (whole th) (acc th) (results th))
+      | AWrKey i k =>
+          let sl := mem s i in
+          put (readers s) (writer s) (gseal s) (upd (mem s) i (mkslot k (sfit sl) (sseal sl)))
+              (mkth r (holds th) (lseal th) (curi th) (curk th) (matched th) (whole th) (acc th) (results th))
+      | AWrFit i v =>
+          let sl := mem s i in
+          put (readers s) (writer s) (gseal s) (upd (mem s) i (mkslot (skey sl) v (sseal sl)))
+              (mkth r (holds th) (lseal th) (curi th) (curk th) (matched th) (whole th) (acc th) (results th))
+      | AWrSlotSeal i =>
+          let sl := mem s i in
+          put (readers s) (writer s) (gseal s) (upd (mem s) i (mkslot (skey sl) (sfit sl) (lseal th)))
+              (mkth r (holds th) (lseal th) (curi th) (curk th) (matched th) (whole th) (acc th) (results th))
+      | AWrSlotSealV i n =>
+          let sl := mem s i in
+          put (readers s) (writer s) (gseal s) (upd (mem s) i (mkslot (skey sl) (sfit sl) n))
+              (mkth r (holds th) (lseal th) (curi th) (curk th) (matched th) (whole th) (acc th) (results th))
+      | AWrSealV n =>
+          put (readers s) (writer s) n (mem s)
               (mkth r (holds th) (lseal th) (curi th) (curk th) (matched th) (whole th) (acc th) (results th))
       | AWrHash i =>
           let sl := mem s i in
@@ -138,24 +162,34 @@ Definition init (progs : list (list action)) : state :=
   mkst [] None 1 (fun _ => slot0) (map init_thread progs).
 
 (* ------------------------------------------------------------ accesses *)
-Inductive loc := LSeal | LSlot (i : N) | LTable.
+Inductive loc :=
+| LSeal                 (* cache::seal_ *)
+| LHash (i : N)         (* table_[i].hash *)
+| LFit (i : N)          (* table_[i].fitness *)
+| LSSeal (i : N)        (* table_[i].seal *)
+| LAllSeals.            (* every table_[i].seal (the reset when the seal wraps) *)
 
 Definition accesses (th : thread) (a : action) : list (loc * bool) :=   (* true = write *)
   match a with
   | ARdSeal => [(LSeal, false)]
-  | ARdSlot i _ => [(LSlot i, false)]
-  | ACopy => if pending th then [(LSlot (curi th), false)] else []
-  | AWrSlot i _ _ => [(LSlot i, true)]
-  | AWrHash i => [(LSlot i, true)]
-  | AWrSeal => [(LSeal, true); (LTable, true)]
+  | ARdSlot i _ => [(LSSeal i, false); (LHash i, false)]
+  | ACopy => if pending th then [(LFit (curi th), false)] else []
+  | ARdFields i => [(LSSeal i, false); (LHash i, false); (LFit i, false)]
+  | AWrKey i _ => [(LHash i, true)]
+  | AWrFit i _ => [(LFit i, true)]
+  | AWrSlotSeal i => [(LSSeal i, true)]
+  | AWrSlotSealV i _ => [(LSSeal i, true)]
+  | AWrHash i => [(LHash i, true)]
+  | AWrSeal => [(LSeal, true); (LAllSeals, true)]
+  | AWrSealV _ => [(LSeal, true)]
   | _ => []
   end.
 
 Definition loc_overlap (a b : loc) : bool :=
   match a, b with
   | LSeal, LSeal => true
-  | LSlot i, LSlot j => i =? j
-  | LTable, LSlot _ | LSlot _, LTable | LTable, LTable => true
+  | LHash i, LHash j | LFit i, LFit j | LSSeal i, LSSeal j => i =? j
+  | LAllSeals, LSSeal _ | LSSeal _, LAllSeals | LAllSeals, LAllSeals => true
   | _, _ => false
   end.
 
@@ -192,13 +226,18 @@ Fixpoint wlb (h : option bool) (c : bool) (l : list action) : bool :=
       | ARdSeal => negb (hb_eq h None) && wlb h c r
       | ARdSlot _ _ => negb (hb_eq h None) && wlb h true r
       | ACopy => negb (hb_eq h None) && wlb h false r
-      | AWrSlot _ _ _ | AWrHash _ | AWrSeal => hb_eq h (Some true) && negb c && wlb h false r
+      | ARdFields _ => negb (hb_eq h None) && wlb h c r
+      | AWrKey _ _ | AWrFit _ _ | AWrSlotSeal _ | AWrSlotSealV _ _ | AWrHash _ | AWrSeal | AWrSealV _ =>
+          hb_eq h (Some true) && negb c && wlb h false r
       | ARet => negb c && wlb h false r
       end
   end.
 
 (* ------------------------------------------------------------ the methods *)
-Inductive op := OFind (k : key) | OInsert (k : key) (v : list word) | OClear | OClearOne (k : key).
+Inductive op :=
+| OFind (k : key) | OInsert (k : key) (v : list word) | OClear | OClearOne (k : key)
+| OSave                                             (* cache::save: every slot is read *)
+| OLoad (ts : N) (recs : list (key * list word)).   (* cache::load of a stream with seal ts and these records *)
 
 Definition lk (p : proto) : list action :=
   match p_lock p with Shared => [ALock false] | Exclusive => [ALock true] | NoLock => [] end.
@@ -217,11 +256,19 @@ Definition compile (P : protos) (bits : N) (o : op) : list action :=
        | _ => ulk p ++ [ACopy]            (* a reference leaves; the caller copies afterwards *)
        end) ++ [ARet]
   | OInsert k v =>
-      let p := pr_insert P in lk p ++ [ARdSeal; AWrSlot (idx bits k) k v] ++ ulk p
+      let p := pr_insert P in
+      lk p ++ [ARdSeal; AWrKey (idx bits k) k; AWrFit (idx bits k) v; AWrSlotSeal (idx bits k)] ++ ulk p
   | OClear =>
       let p := pr_clear P in lk p ++ [ARdSeal; AWrSeal] ++ ulk p
   | OClearOne k =>
       let p := pr_clear_one P in lk p ++ [AWrHash (idx bits k)] ++ ulk p
+  | OSave =>
+      let p := pr_save P in lk p ++ ARdSeal :: map ARdFields (indices (2 ^ bits)) ++ ulk p
+  | OLoad ts recs =>
+      let p := pr_load P in
+      lk p ++ flat_map (fun kv => let i := idx bits (fst kv) in
+                                  [AWrKey i (fst kv); AWrFit i (snd kv); AWrSlotSealV i ts]) recs
+           ++ [AWrSealV ts] ++ ulk p
   end.
 
 Definition program (P : protos) (bits : N) (ops : list op) : list action :=
@@ -251,8 +298,21 @@ Definition proto_ok (P : protos) : bool :=
   negb (p_early s) && has_lock s && not_ref s && subset (p_writes s) [].
 
 (* the values the programs may store *)
-Definition ins_of (l : list action) : list (key * list word) :=
-  flat_map (fun a => match a with AWrSlot _ k v => [(k, v)] | _ => [] end) l.
+Fixpoint ins_of (l : list action) : list (key * list word) :=
+  match l with
+  | AWrKey _ k :: ((AWrFit _ v :: _) as r) => (k, v) :: ins_of r
+  | _ :: r => ins_of r
+  | [] => []
+  end.
+
+(* hash and fitness of a slot are only ever written as the pair "key, then its
+   value" on one slot (static check of a program) *)
+Fixpoint pairs_ok (l : list action) : bool :=
+  match l with
+  | [] => true
+  | AWrKey i _ :: r => (match r with AWrFit j _ :: _ => i =? j | _ => false end) && pairs_ok r
+  | _ :: r => (match r with AWrFit _ _ :: _ => false | _ => true end) && pairs_ok r
+  end.
 
 (* observation used by the drivers *)
 Definition all_results (s : state) : list (list (key * list word)) := map results (ths s).
